@@ -7,7 +7,9 @@ X = "xyz"
 
 
 def units():
-    U = Unit("c17_index", "units/c17_index.cpp", opts=dict(uf_arith=False, virtual_final=["ActualArray3D"]))
+    U = Unit("c17_index", "units/c17_index.cpp", stubs="/* closed universe: the only Array3D<float> of this unit is ActualArray3D<float> (base sub-object first) */\nfloat a3f_get_dispatch(Array3D_float *self, vec3i *w) { return actual_get((ActualArray3Df *)self, w); }\n",
+             opts=dict(uf_arith=False, virtual_final=["ActualArray3D"], stub_bodies=["a3f_get_dispatch"], virtual_models={"rkcommon::array3D::Array3D<float>::get": "a3f_get_dispatch"}))
+    U.stub_deps = {"a3f_get_dispatch": ["actual_get"]}
 
     # ---------------- multidim_index_sequence<3>: over Z with every intermediate proved to fit 64 bits
     def seq3(ctx):
@@ -205,6 +207,6 @@ META = dict(
     level_note="Trusted: clang AST, cxx2c, mathvc evaluator, z3; CBMC for the iterator contracts. ActualArray3D::get/set are checked BOUNDED (extents of at most 4 per axis): get reads the cell at the clamped coordinate, set writes exactly the cell of its coordinate and no other (so get returns the value last set there). NOT under contract: getValueRange, Array3DRepeater, numElements of the adaptors.",
     assumptions=["extent with total < 2^64 (multidim_index_sequence), positive int extents (array3D)"],
     bounded=["ActualArray3D get/set: extents of at most 4 per axis", "for_each (unit c17_foreach): region extents of at most 3 per axis, coordinates in [-3,3], unwind 5"],
-    unverified=["Array3DRepeater (mirrored repetition; not named by the property)", "adaptor numElements", "getValueRange"],
+    unverified=["Array3DRepeater (mirrored repetition; not named by the property)", "adaptor numElements", "getValueRange (a bounded check with 3x3x3 cells ran CBMC out of memory: 125 unwound bodies with 64-bit index products)"],
     trusted_extra=["lib/mathvc.py symbolic evaluator", "z3 5.1.0"],
 )
